@@ -360,6 +360,8 @@ protected:
 
     virtual Action visitIdentifierDeclarator(const IdentifierDeclaratorSyntax* node) override
     {
+        for (auto iter = node->attributes(); iter; iter = iter->next)
+            nonterminal(iter->value);
         terminal(node->identifierToken(), node);
         for (auto iter = node->attributes_PostIdentifier(); iter; iter = iter->next)
             nonterminal(iter->value);
